@@ -544,6 +544,48 @@ def rule_r7(prog, res) -> None:
         res.violation("C02.R7", gb, fn, "sorted records are not split exactly at the boundaries of the sorted unique keys", key_extra="groupby-split")
 
 
+def rule_r8(prog, res) -> None:
+    """given patch centres take precedence over a patch-id column"""
+    from ..cfg import cfg_of as _cfg
+    from .common import pruned_reach, single_def_resolver
+
+    sip = prog.func("split_into_patches")
+    res.touch(sip)
+    fn = sip.node
+    cfg = _cfg(fn)
+    cen = sip.param_names()[1]
+    gb = [n for n in cfg.nodes if any(t.name == "groupby" for c in n.calls() for t in prog.resolve_call(sip, c).funcs())]
+    if not gb:
+        raise AnalysisError("C02.R8: groupby call vanished from split_into_patches")
+    call = next(c for c in gb[0].calls() if any(t.name == "groupby" for t in prog.resolve_call(sip, c).funcs()))
+    key = call.args[0]
+    if not isinstance(key, ast.Name):
+        raise AnalysisError("C02.R8: group key is not a plain name")
+    defs = [n for n in cfg.nodes if n.kind == "stmt" and isinstance(n.ast, ast.Assign) and key.id in [x.id for t in n.ast.targets for x in ast.walk(t) if isinstance(x, ast.Name)]]
+    from_centres = [n for n in defs if any(t.name == "assign_patch_centers" for c in n.calls() for t in prog.resolve_call(sip, c).funcs())]
+    from_column = [n for n in defs if n not in from_centres]
+    for has_ids in (True, False):
+        env = {cen: "SOME", "has_patch_ids": has_ids, "hasattr()": has_ids}
+        reach = pruned_reach(cfg, cfg.entry, env, defs=None)
+        bad = [n for n in from_column if n.id in reach]
+        # a column definition may be overwritten by the centre assignment later on the same path
+        bad = [n for n in bad if gb[0].id in pruned_reach(cfg, n, env, avoid=lambda x: x in from_centres)]
+        if bad:
+            res.violation(
+                "C02.R8",
+                sip,
+                bad[0].ast,
+                f"with patch centres given (and a patch-id column {'present' if has_ids else 'absent'}) the records are grouped by `{norm_stmt(bad[0].ast)[:60]}` instead of by their nearest centre: "
+                "the documented precedence patch_centers > patch_name is reversed and records land in patches whose stored centre is not their nearest one",
+                key_extra="centres-precedence",
+            )
+            return
+    if not from_centres:
+        res.violation("C02.R8", sip, fn, "patch ids are never derived from the given centres", key_extra="centres-unused")
+        return
+    res.ok("C02.R8", res.site(sip), "whenever centres are given, the group key is the nearest-centre assignment (also when an id column exists)")
+
+
 RULES = [
     ("C02.R1", rule_r1, QUICK),
     ("C02.R2", rule_r2, QUICK),
@@ -552,4 +594,5 @@ RULES = [
     ("C02.R5", rule_r5, QUICK),
     ("C02.R6", rule_r6, QUICK),
     ("C02.R7", rule_r7, QUICK),
+    ("C02.R8", rule_r8, QUICK),
 ]
